@@ -235,6 +235,19 @@ func splitOverrideSubnets(overrideSubnets []Subnet) ([]Subnet, []Subnet) {
 	return minOverrideSubnets, prefixOverrideSubnets
 }
 
+// validateOverrideSubnets rejects override subnets that cannot be applied consistently. The port of
+// an override subnet is sent to the client as a uint32 in the registration response while stations
+// keep phantom ports as uint16, so a port above 65535 would leave the client and the stations with
+// different destination ports for the same registration.
+func validateOverrideSubnets(subnets []Subnet) error {
+	for _, subnet := range subnets {
+		if subnet.Port > math.MaxUint16 {
+			return fmt.Errorf("override subnet %v: port %d out of range", subnet.CIDR.IPNet, subnet.Port)
+		}
+	}
+	return nil
+}
+
 // calculate cumulative weights for a given subnets slice
 func processOverrideSubnetsWeights(subnets []Subnet) []float64 {
 
@@ -284,6 +297,10 @@ func NewRegProcessor(zmqBindAddr string, zmqPort uint16, privkey []byte, authVer
 // initializes the registration processor without the phantom selector which can be added by a
 // wrapping function before it is returned. This function is required for testing.
 func newRegProcessor(zmqBindAddr string, zmqPort uint16, privkey []byte, authVerbose bool, stationPublicKeys []string, enforceSubnetOverrides bool, overrideSubnets []Subnet, exclusionsFromOverride []Subnet, prcntMinRegsToOverride float64, prcntPrefixRegsToOverride float64) (*RegProcessor, error) {
+	if err := validateOverrideSubnets(overrideSubnets); err != nil {
+		return nil, err
+	}
+
 	sock, err := zmq.NewSocket(zmq.PUB)
 	if err != nil {
 		return nil, fmt.Errorf("%w: %v", ErrZmqSocket, err)
@@ -350,6 +367,10 @@ func newRegProcessor(zmqBindAddr string, zmqPort uint16, privkey []byte, authVer
 
 // NewRegProcessorNoAuth creates a regprocessor without authentication to zmq address
 func NewRegProcessorNoAuth(zmqBindAddr string, zmqPort uint16, metrics *metrics.Metrics, enforceSubnetOverrides bool, overrideSubnets []Subnet, exclusionsFromOverride []Subnet, prcntMinRegsToOverride float64, prcntPrefixRegsToOverride float64) (*RegProcessor, error) {
+	if err := validateOverrideSubnets(overrideSubnets); err != nil {
+		return nil, err
+	}
+
 	sock, err := zmq.NewSocket(zmq.PUB)
 	if err != nil {
 		return nil, ErrZmqSocket
